@@ -2,6 +2,7 @@ mod alloc;
 mod checks_a;
 mod checks_b;
 mod checks_c06;
+mod checks_c11;
 mod checks_c14;
 mod checks_c20;
 mod checks_codec;
@@ -14,6 +15,7 @@ mod inst_poplar;
 mod inst_prio2;
 mod model;
 mod rng;
+mod sim_xof;
 mod trace_vdaf;
 mod util;
 mod wire;
@@ -32,6 +34,7 @@ fn registry() -> Vec<Box<dyn Check>> {
     v.extend(checks_codec::checks());
     v.extend(checks_c20::checks());
     v.extend(checks_c14::checks());
+    v.extend(checks_c11::checks());
     v.extend(checks_c06::checks());
     v.extend(checks_prio2::checks());
     v.extend(checks_twin::checks());
